@@ -202,8 +202,13 @@ def check(prog, rep):
                 txt = norm(n)
                 ch = kw(n.value, 'chunks') or (n.value.args[1] if len(n.value.args) > 1 else None)
                 # any chunking is sound: da.map_overlap unifies the chunks of its array arguments
-                ok = norm(n.value.args[0]) == g and ch is not None
-        rep.add('P7-grid', impl, entry, txt or 'dask grid %s' % g, impl.node.lineno, ok,
+                nm = kw(n.value, 'name')
+                # graph keys: the default name hashes the array's content; an explicit name that is not a function of
+                # the grid's values makes two different grids collide when two results are computed together
+                okname = nm is None or (isinstance(nm, ast.Constant) and nm.value in (None, False)) or \
+                    (isinstance(nm, ast.Call) and short(nm) == 'tokenize' and any(norm(a) == g for a in nm.args))
+                ok = norm(n.value.args[0]) == g and ch is not None and okname
+        rep.add('P7-grid', impl, entry, (txt or 'dask grid %s' % g)[:140], impl.node.lineno, ok,
                 'the dask %s grid must wrap the numpy %s grid built from the raster coordinates' % (g, g))
     # coordinate grids built from the raster's coords
     for g, fn, dimname, ext in (('xs', 'tile', 'x', 0), ('ys', 'repeat', 'y', 1)):
